@@ -123,7 +123,7 @@ func toCell(c cell) vaxis.Cell {
 	return vaxis.Cell{Character: ch, Style: st}
 }
 
-const opTimeout = 3 * time.Second
+const opTimeout = 8 * time.Second // only a cap on genuine hangs; 3 s expired on a loaded machine (false alarm seen once)
 
 // apply runs one synchronous operation; it reports false when it did not return.
 func apply(vx *vaxis.Vaxis, o op) bool {
